@@ -21,8 +21,8 @@ import (
 type oset uint64
 
 const (
-	bitFresh oset = 1 << 62
-	bitOther oset = 1 << 63
+	bitFresh  oset = 1 << 62
+	bitOther  oset = 1 << 63
 	paramMask oset = (1 << 60) - 1
 )
 
@@ -41,10 +41,10 @@ type witness struct {
 }
 
 type fnSummary struct {
-	writes   oset             // parameter bits whose reachable bytes may be written
-	rets     []oset           // origins of each result
-	wit      map[int]witness  // one witness per written parameter
-	unknown  map[int][]string // parameter -> external callees of unknown effect that receive it
+	writes  oset             // parameter bits whose reachable bytes may be written
+	rets    []oset           // origins of each result
+	wit     map[int]witness  // one witness per written parameter
+	unknown map[int][]string // parameter -> external callees of unknown effect that receive it
 }
 
 type modsum struct {
@@ -100,15 +100,15 @@ var extWriters = map[string][]int{
 	"(encoding/binary.littleEndian).PutUint16": {1},
 	"(encoding/binary.littleEndian).PutUint32": {1},
 	"(encoding/binary.littleEndian).PutUint64": {1},
-	"io.ReadFull":                              {1},
-	"io.ReadAtLeast":                           {1},
-	"invoke (io.Reader).Read":                  {0},
-	"(*bufio.Reader).Read":                     {1},
-	"(*bytes.Buffer).Read":                     {1},
-	"(*bytes.Reader).Read":                     {1},
-	"(*os.File).Read":                          {1},
-	"crypto/rand.Read":                         {0},
-	"sort.Sort":                                {},
+	"io.ReadFull":             {1},
+	"io.ReadAtLeast":          {1},
+	"invoke (io.Reader).Read": {0},
+	"(*bufio.Reader).Read":    {1},
+	"(*bytes.Buffer).Read":    {1},
+	"(*bytes.Reader).Read":    {1},
+	"(*os.File).Read":         {1},
+	"crypto/rand.Read":        {0},
+	"sort.Sort":               {},
 }
 
 // extResultAlias: external callees whose result aliases an argument.
